@@ -11,10 +11,19 @@ open Gen
 
 /-! ## the obligation on the code (translator) -/
 
-/-- every force class flagged position-only has all its state parameters invalidating a stage ≤ Position, and
-no force class has a parameter that invalidates only a stage after Dynamics -/
+/-- a class that keeps *lazy* cache entries of its own (computed-by = Infinity: valid until their depends-on stage is
+invalidated) must not have a parameter variable that invalidates only a later stage than such an entry depends on
+— otherwise a parameter change leaves the entry valid with stale contents.  Force::Gravity is exempt: its setters
+invalidate the entry explicitly (`gravity_setters_ok`).  This is what lets the model treat such elements
+(LinearBushing, CableSpring) as recomputed at every realization. -/
+def LazyRowOK (c : FClass) : Bool :=
+  c.name == "Force::GravityImpl" || c.cacheStages.all (fun dc => dc.2 != 10 || c.paramStages.all (· ≤ dc.1))
+
+/-- every force class flagged position-only has all its state parameters invalidating a stage ≤ Position, no force
+class has a parameter that invalidates only a stage after Dynamics, and no class has a lazy cache entry of its own
+that a parameter change would leave valid (`LazyRowOK`) -/
 def TableOK (tbl : List FClass) : Bool :=
-  tbl.all (fun c => (c.posOnly != some true || c.paramStages.all (· ≤ 5)) && c.paramStages.all (· ≤ 7))
+  tbl.all (fun c => (c.posOnly != some true || c.paramStages.all (· ≤ 5)) && c.paramStages.all (· ≤ 7) && LazyRowOK c)
 
 /-- every Force::Gravity setter that writes the parameter variable invalidates the lazy force cache first -/
 def GravitySettersOK (l : List (String × Bool × Bool)) : Bool := l.all (fun s => !s.2.1 || s.2.2)
@@ -27,33 +36,39 @@ theorem table_ok : TableOK Gen.table = true := by decide
 
 theorem gravity_setters_ok : GravitySettersOK Gen.gravitySetters = true ∧ Gen.gravitySetters.length ≥ 4 := by decide
 
-/-- a class that keeps *lazy* cache entries of its own (computed-by = Infinity: valid until their depends-on stage is
-invalidated) must not have a parameter variable that invalidates only a later stage than such an entry depends on
-— otherwise a parameter change leaves the entry valid with stale contents.  Force::Gravity is exempt: its setters
-invalidate the entry explicitly (`gravity_setters_ok`).  This is what lets the model treat such elements
-(LinearBushing, CableSpring) as recomputed at every realization. -/
-def LazyOK (tbl : List FClass) : Bool :=
-  tbl.all (fun c => c.name == "Force::GravityImpl" ||
-    c.cacheStages.all (fun dc => dc.2 != 10 || c.paramStages.all (· ≤ dc.1)))
+def LazyOK (tbl : List FClass) : Bool := tbl.all LazyRowOK
 
-/-- **obligation on the current source**: parameter stage ≤ depends-on stage of every lazy cache entry of the class -/
+/-- **obligation on the current source** (a clause of `TableOK`, stated separately): parameter stage ≤ depends-on
+stage of every lazy cache entry of the class -/
 theorem lazy_ok : LazyOK Gen.table = true := by decide
+
+/-- the seeded defect "LinearBushing parameters invalidate Dynamics only" violates the obligation -/
+example : TableOK [{ name := "Force::LinearBushingImpl", posOnly := some false, paramStages := [7],
+                     cacheStages := [(5, 10), (6, 10), (6, 10)], nZ := 1 }] = false := by decide
 
 /-- well-formed force list (what `TableOK` gives for forces that are instances of table rows) -/
 structure WF (fs : List Force) : Prop where
   grav : ∀ f ∈ fs, f.gravity = true → f.posOnly = false
   pos : ∀ f ∈ fs, f.posOnly = true → ∀ s ∈ f.paramStages, s ≤ 5
   dyn : ∀ f ∈ fs, ∀ s ∈ f.paramStages, s ≤ 7
+  gs : ∀ f ∈ fs, ∀ k, f.setterInval.getD k true = true
+
+theorem getD_true_of_all (l : List Bool) (h : ∀ b ∈ l, b = true) (k : Nat) : l.getD k true = true := by
+  rw [List.getD_eq_getElem?_getD]
+  cases hk : l[k]? with
+  | none => rfl
+  | some b => exact h b (List.mem_of_getElem? hk)
 
 /-- forces that are instances of rows of a table satisfying `TableOK` are well formed (for `Force::Custom` the
 user's flag must respect the same rule: its row has no parameters) -/
 theorem wf_of_table (tbl : List FClass) (h : TableOK tbl = true) (cs : List (FClass × Bool))
     (hm : ∀ c ∈ cs, c.1 ∈ tbl) (hc : ∀ c ∈ cs, c.1.posOnly = none → c.1.paramStages = [])
-    (hg : ∀ c ∈ cs, c.1.name = "Force::GravityImpl" → c.1.posOnly = some false) :
+    (hg : ∀ c ∈ cs, c.1.name = "Force::GravityImpl" → c.1.posOnly = some false)
+    (hgs : GravitySettersOK Gen.gravitySetters = true) :
     WF (cs.map (fun c => Force.ofClass c.1 c.2)) := by
   unfold TableOK at h
   simp only [List.all_eq_true, Bool.and_eq_true, Bool.or_eq_true, bne_iff_ne, ne_eq, decide_eq_true_eq] at h
-  refine ⟨?_, ?_, ?_⟩
+  refine ⟨?_, ?_, ?_, ?_⟩
   · intro f hf hgr
     obtain ⟨c, hcm, rfl⟩ := List.mem_map.mp hf
     simp only [Force.ofClass, beq_iff_eq] at hgr ⊢
@@ -68,12 +83,22 @@ theorem wf_of_table (tbl : List FClass) (h : TableOK tbl = true) (cs : List (FCl
       rw [hpo] at hp
       simp only [Option.getD_some] at hp
       subst hp
-      rcases this.1 with h1 | h1
+      rcases this.1.1 with h1 | h1
       · exact absurd hpo h1
       · exact h1 s hs
   · intro f hf s hs
     obtain ⟨c, hcm, rfl⟩ := List.mem_map.mp hf
-    exact (h c.1 (hm c hcm)).2 s hs
+    exact (h c.1 (hm c hcm)).1.2 s hs
+  · intro f hf k
+    obtain ⟨c, hcm, rfl⟩ := List.mem_map.mp hf
+    apply getD_true_of_all
+    intro b hb
+    simp only [Force.ofClass] at hb
+    split at hb
+    · obtain ⟨x, hx, rfl⟩ := List.mem_map.mp hb
+      unfold GravitySettersOK at hgs
+      exact List.all_eq_true.mp hgs x hx
+    · cases hb
 
 /-! ## the invariant: whatever is cached was computed from the current values -/
 
@@ -214,14 +239,14 @@ theorem getD_mem {fs : List Force} {i : Nat} (h : i < fs.length) : fs.getD i def
   rw [this]; exact List.getElem_mem h
 
 theorem posContribs_congr (fs : List Force) (hw : WF fs) (v w : Vars) (he : w.enabled = v.enabled)
-    (ht : w.t = v.t) (hq : w.q = v.q)
+    (ht : w.t = v.t) (hq : w.q = v.q) (hi : w.inst = v.inst) (ho : w.opt = v.opt)
     (hp : ∀ i, (fs.getD i default).posOnly = true → w.params.getD i [] = v.params.getD i []) :
     posContribs fs w = posContribs fs v := by
   unfold posContribs enabledIdx
   rw [he]
   apply List.map_congr_left
-  intro i hi
-  have hf := (List.mem_filter.mp hi)
+  intro i hmem
+  have hf := (List.mem_filter.mp hmem)
   have hlt : i < fs.length := List.mem_range.mp hf.1
   have hpo : (fs.getD i default).posOnly = true := by
     have := hf.2; simp only [Bool.and_eq_true] at this; exact this.2
@@ -230,7 +255,7 @@ theorem posContribs_congr (fs : List Force) (hw : WF fs) (v w : Vars) (he : w.en
     | false => rfl
     | true => have := hw.grav _ (getD_mem hlt) hg; rw [this] at hpo; cases hpo
   unfold contrib
-  rw [inputs_congr fs v w i (hp i hpo) (fun hg => by rw [hng] at hg; cases hg) ht hq
+  rw [inputs_congr fs v w i (hp i hpo) (fun hg => by rw [hng] at hg; cases hg) ht hq hi ho
         (fun _ hx => by rw [hpo] at hx; cases hx)]
 
 /-- a variable change that invalidates stage `g ≤ Dynamics` -/
@@ -238,6 +263,7 @@ theorem Inv.change {fs : List Force} (hw : WF fs) {st : St} (h : Inv fs st) (g :
     (hz : ∀ i, (fs.getD i default).gravity = true →
         v'.zeroMag.getD i false = st.vars.zeroMag.getD i false ∧ v'.params.getD i [] = st.vars.params.getD i [])
     (htq : 6 ≤ g → v'.t = st.vars.t ∧ v'.q = st.vars.q ∧ v'.enabled = st.vars.enabled ∧
+        v'.inst = st.vars.inst ∧ v'.opt = st.vars.opt ∧
         ∀ i, (fs.getD i default).posOnly = true → v'.params.getD i [] = st.vars.params.getD i []) :
     Inv fs { (st.inval g) with vars := v' } := by
   have hfresh : ∀ i, (st.inval g).lazyFresh.getD i false = true →
@@ -258,10 +284,10 @@ theorem Inv.change {fs : List Force} (hw : WF fs) {st : St} (h : Inv fs st) (g :
       · rw [h.l.low hlt i] at hf0; cases hf0
       · omega
     have hg6 : 6 ≤ g := by omega
-    obtain ⟨ht, hq, _, _⟩ := htq hg6
+    obtain ⟨ht, hq, _, hi, ho, _⟩ := htq hg6
     show st.lazySnap.getD i [] = inputs fs v' i
     rw [h.l.lazy i hgr hf0]
-    exact (inputs_congr fs st.vars v' i (hz i hgr).2 (fun _ => (hz i hgr).1) ht hq
+    exact (inputs_congr fs st.vars v' i (hz i hgr).2 (fun _ => (hz i hgr).1) ht hq hi ho
       (fun hx => by rw [hgr] at hx; cases hx)).symm
   · intro hlt i
     show (st.inval g).lazyFresh.getD i false = false
@@ -277,13 +303,45 @@ theorem Inv.change {fs : List Force} (hw : WF fs) {st : St} (h : Inv fs st) (g :
     exact (inputs_zero fs st.vars v' i hgr (hz i hgr).2 hzm hzm').symm
   · intro hv h5
     have h5' : 5 ≤ min st.stage (g - 1) := h5
-    obtain ⟨ht, hq, he, hp⟩ := htq (by omega)
+    obtain ⟨ht, hq, he, hi, ho, hp⟩ := htq (by omega)
     show st.cacheTotal = posContribs fs v'
     rw [h.cache hv (by omega)]
-    exact (posContribs_congr fs hw st.vars v' he ht hq hp).symm
+    exact (posContribs_congr fs hw st.vars v' he ht hq hi ho hp).symm
   · intro h7
     have h7' : 7 ≤ min st.stage (g - 1) := h7
     omega
+
+theorem Inv.with_m {fs : List Force} {st : St} (h : Inv fs st) (x : MC) : Inv fs { st with m := x } :=
+  ⟨⟨h.l.lenF, h.l.lenS, h.l.lazy, h.l.low, h.l.zero⟩, h.cache, h.nopos, h.tot⟩
+
+/-- an invalidation of the cache alone (no variable changes) -/
+theorem Inv.inval_same {fs : List Force} {st : St} (h : Inv fs st) (g : Nat) : Inv fs (st.inval g) := by
+  have hfresh : ∀ i, (st.inval g).lazyFresh.getD i false = true → st.lazyFresh.getD i false = true := by
+    intro i hf
+    unfold St.inval at hf
+    simp only at hf
+    by_cases hc : g ≤ 5 ∧ 5 ≤ st.stage
+    · rw [if_pos hc, getD_map_const_false] at hf; cases hf
+    · rw [if_neg hc] at hf; exact hf
+  refine ⟨⟨?_, h.l.lenS, fun i hgr hf => h.l.lazy i hgr (hfresh i hf), ?_, h.l.zero⟩, ?_, h.nopos, ?_⟩
+  · show (st.inval g).lazyFresh.length = fs.length
+    unfold St.inval; simp only; split <;> simp [h.l.lenF]
+  · intro hlt i
+    have hlt' : min st.stage (g - 1) < 5 := hlt
+    cases hf : (st.inval g).lazyFresh.getD i false with
+    | false => rfl
+    | true =>
+      have h0 := hfresh i hf
+      by_cases hs : st.stage < 5
+      · rw [h.l.low hs i] at h0; cases h0
+      · unfold St.inval at hf; simp only at hf
+        rw [if_pos ⟨by omega, by omega⟩, getD_map_const_false] at hf; cases hf
+  · intro hv h5
+    have h5' : 5 ≤ min st.stage (g - 1) := h5
+    exact h.cache hv (by omega)
+  · intro h7
+    have h7' : 7 ≤ min st.stage (g - 1) := h7
+    exact h.tot (by omega)
 
 theorem getD_setParamVal_ne (ps : List (List Nat)) (i j v k : Nat) (h : k ≠ i) :
     (setParamVal ps i j v).getD k [] = ps.getD k [] := by
@@ -302,23 +360,41 @@ theorem Inv.ensure {fs : List Force} {st : St} (h : Inv fs st) (i : Nat) (hs : 5
 def gravVars (v : Vars) (i j x : Nat) (zero : Bool) : Vars :=
   { v with params := setParamVal v.params i j x, zeroMag := setAt v.zeroMag i zero }
 
-theorem step_gravSet_eq (fs : List Force) (st : St) (i j v : Nat) (zero : Bool)
-    (hgr : (fs.getD i default).gravity = true) :
-    C16.step fs st (.gravSet i j v zero) =
+theorem step_gravSet_eq (fs : List Force) (st : St) (i j v : Nat) (zero : Bool) (k : Nat)
+    (hgr : (fs.getD i default).gravity = true) (hk : (fs.getD i default).setterInval.getD k true = true) :
+    C16.step fs st (.gravSet i j v zero k) =
       { st with stage := min st.stage 6, lazyFresh := setAt st.lazyFresh i false,
                 vars := gravVars st.vars i j v zero,
                 lazySnap := if zero = true then setAt st.lazySnap i (inputs fs (gravVars st.vars i j v zero) i)
                             else st.lazySnap } := by
-  simp only [C16.step, if_pos hgr, St.inval, gravVars]
+  simp only [C16.step, if_pos hgr, hk, if_true, St.inval, gravVars]
   have : ¬ (7 ≤ 5 ∧ 5 ≤ st.stage) := by omega
-  simp only [if_neg this]
+  have h3 : ¬ (7 ≤ 3 ∧ 3 ≤ st.stage) := by omega
+  simp only [if_neg this, if_neg h3]
 
 theorem Inv.step {fs : List Force} (hw : WF fs) {st : St} (h : Inv fs st) (op : Op) : Inv fs (C16.step fs st op) := by
   cases op with
   | setT v => exact h.change hw 4 (by omega) _ (fun _ _ => ⟨rfl, rfl⟩) (fun h6 => absurd h6 (by omega))
-  | setQ v => exact h.change hw 5 (by omega) _ (fun _ _ => ⟨rfl, rfl⟩) (fun h6 => absurd h6 (by omega))
-  | setU v => exact h.change hw 6 (by omega) _ (fun _ _ => ⟨rfl, rfl⟩) (fun _ => ⟨rfl, rfl, rfl, fun _ _ => rfl⟩)
-  | setZ v => exact h.change hw 7 (by omega) _ (fun _ _ => ⟨rfl, rfl⟩) (fun _ => ⟨rfl, rfl, rfl, fun _ _ => rfl⟩)
+  | setQ v =>
+    exact (h.change hw 5 (by omega) { st.vars with q := v } (fun _ _ => ⟨rfl, rfl⟩) (fun h6 => absurd h6 (by omega))).with_m _
+  | setU v =>
+    exact (h.change hw 6 (by omega) { st.vars with u := v } (fun _ _ => ⟨rfl, rfl⟩)
+      (fun _ => ⟨rfl, rfl, rfl, rfl, rfl, fun _ _ => rfl⟩)).with_m _
+  | setZ v => exact h.change hw 7 (by omega) _ (fun _ _ => ⟨rfl, rfl⟩) (fun _ => ⟨rfl, rfl, rfl, rfl, rfl, fun _ _ => rfl⟩)
+  | setInst v => exact h.change hw 3 (by omega) _ (fun _ _ => ⟨rfl, rfl⟩) (fun h6 => absurd h6 (by omega))
+  | setOpt v => exact h.change hw 2 (by omega) _ (fun _ _ => ⟨rfl, rfl⟩) (fun h6 => absurd h6 (by omega))
+  | mRealize e =>
+    simp only [C16.step]
+    split
+    · split
+      · exact h
+      · exact h.with_m _
+    · exact h
+  | mInvalidate e =>
+    simp only [C16.step]
+    split
+    · exact (h.inval_same _).with_m _
+    · exact h.with_m _
   | setParam i j v =>
     simp only [C16.step]
     cases hj : ((fs.getD i default).paramStages)[j]? with
@@ -340,7 +416,7 @@ theorem Inv.step {fs : List Force} (hw : WF fs) {st : St} (h : Inv fs st) (op : 
           have : k ≠ i := fun hki => by subst hki; exact hgr hk
           exact ⟨rfl, getD_setParamVal_ne _ _ _ _ _ this⟩
         · intro h6
-          refine ⟨rfl, rfl, rfl, ?_⟩
+          refine ⟨rfl, rfl, rfl, rfl, rfl, ?_⟩
           intro k hk
           have : k ≠ i := fun hki => by
             subst hki
@@ -365,10 +441,10 @@ theorem Inv.step {fs : List Force} (hw : WF fs) {st : St} (h : Inv fs st) (op : 
         have : (7 : Nat) ≤ min st.stage (3 - 1) := h7
         omega
     · exact h3
-  | gravSet i j v zero =>
+  | gravSet i j v zero ks =>
     by_cases hgr : (fs.getD i default).gravity = true
-    · rw [step_gravSet_eq fs st i j v zero hgr]
-      have hi := gravity_lt hgr
+    · have hi := gravity_lt hgr
+      rw [step_gravSet_eq fs st i j v zero ks hgr (hw.gs _ (getD_mem hi) ks)]
       generalize hv' : gravVars st.vars i j v zero = v'
       have hvp : ∀ k, k ≠ i → v'.params.getD k [] = st.vars.params.getD k [] := by
         intro k hk; rw [← hv']; exact getD_setParamVal_ne _ _ _ _ _ hk
@@ -376,6 +452,8 @@ theorem Inv.step {fs : List Force} (hw : WF fs) {st : St} (h : Inv fs st) (op : 
         intro k hk; rw [← hv']; exact getD_setAt_ne _ _ _ _ _ hk
       have hvt : v'.t = st.vars.t ∧ v'.q = st.vars.q ∧ v'.enabled = st.vars.enabled := by
         rw [← hv']; exact ⟨rfl, rfl, rfl⟩
+      have hvio : v'.inst = st.vars.inst ∧ v'.opt = st.vars.opt := by
+        rw [← hv']; exact ⟨rfl, rfl⟩
       have hvzi : v'.zeroMag.getD i false = true → zero = true := by
         rw [← hv']
         intro hx
@@ -406,7 +484,7 @@ theorem Inv.step {fs : List Force} (hw : WF fs) {st : St} (h : Inv fs st) (op : 
         rw [getD_setAt_ne _ _ _ _ _ hki] at hf'
         show (if zero = true then setAt st.lazySnap i (inputs fs v' i) else st.lazySnap).getD k [] = inputs fs v' k
         rw [hsn k hki, h.l.lazy k hk hf']
-        exact (inputs_congr fs st.vars v' k (hvp k hki) (fun _ => hvz k hki) hvt.1 hvt.2.1
+        exact (inputs_congr fs st.vars v' k (hvp k hki) (fun _ => hvz k hki) hvt.1 hvt.2.1 hvio.1 hvio.2
           (fun hx => by rw [hk] at hx; cases hx)).symm
       · intro hlt k
         have hlt' : min st.stage 6 < 5 := hlt
@@ -431,7 +509,7 @@ theorem Inv.step {fs : List Force} (hw : WF fs) {st : St} (h : Inv fs st) (op : 
         have h5' : 5 ≤ min st.stage 6 := h5
         show st.cacheTotal = posContribs fs v'
         rw [h.cache hv (by omega)]
-        refine (posContribs_congr fs hw st.vars v' hvt.2.2 hvt.1 hvt.2.1 ?_).symm
+        refine (posContribs_congr fs hw st.vars v' hvt.2.2 hvt.1 hvt.2.1 hvio.1 hvio.2 ?_).symm
         intro k hk
         have hki : k ≠ i := by
           intro hki; subst hki
@@ -442,7 +520,7 @@ theorem Inv.step {fs : List Force} (hw : WF fs) {st : St} (h : Inv fs st) (op : 
         have : 7 ≤ min st.stage 6 := h7
         omega
     · simp only [C16.step, if_neg hgr]; exact h
-  | realize g => exact (realize_spec fs st g h).1
+  | realize g => exact (realize_spec fs st (min g 9) h).1
   | gravQuery i =>
     simp only [C16.step]
     split
@@ -524,7 +602,7 @@ theorem history_independent_table (cs : List (FClass × Bool)) (hm : ∀ c ∈ c
     let fs := cs.map (fun c => Force.ofClass c.1 c.2)
     result fs (run fs (fresh fs v0) ops) = result fs (fresh fs (run fs (fresh fs v0) ops).vars) := by
   intro fs
-  refine history_independent fs (wf_of_table Gen.table table_ok cs hm ?_ ?_) v0 ops
+  refine history_independent fs (wf_of_table Gen.table table_ok cs hm ?_ ?_ gravity_setters_ok.1) v0 ops
   · intro c hc hp
     have : ∀ r ∈ Gen.table, r.posOnly = none → r.paramStages = [] := by decide
     exact this c.1 (hm c hc) hp
@@ -532,13 +610,24 @@ theorem history_independent_table (cs : List (FClass × Bool)) (hm : ∀ c ∈ c
     have : ∀ r ∈ Gen.table, r.name = "Force::GravityImpl" → r.posOnly = some false := by decide
     exact this c.1 (hm c hc) hn
 
-/-- **gravity_cache_invalidated_by_setters.**  After a Force::Gravity setter the element's lazy force cache is not
-marked valid (so the next use recomputes it from the new parameters), whatever the stage. -/
-theorem gravity_cache_invalidated_by_setters (fs : List Force) (st : St) (i j v : Nat) (zero : Bool)
-    (hg : (fs.getD i default).gravity = true) (hl : st.lazyFresh.length = fs.length) :
-    (step fs st (.gravSet i j v zero)).lazyFresh.getD i false = false := by
-  rw [step_gravSet_eq fs st i j v zero hg]
+/-- **gravity_cache_invalidated_by_setters.**  After a Force::Gravity setter that the generated table lists as
+invalidating (`gravity_setters_ok`: all of them) the element's lazy force cache is not marked valid, whatever the
+stage — so the next use recomputes it from the new parameters. -/
+theorem gravity_cache_invalidated_by_setters (fs : List Force) (st : St) (i j v : Nat) (zero : Bool) (k : Nat)
+    (hg : (fs.getD i default).gravity = true) (hk : (fs.getD i default).setterInval.getD k true = true)
+    (hl : st.lazyFresh.length = fs.length) :
+    (step fs st (.gravSet i j v zero k)).lazyFresh.getD i false = false := by
+  rw [step_gravSet_eq fs st i j v zero k hg hk]
   exact getD_setAt_self _ _ _ _ (by rw [hl]; exact gravity_lt hg)
+
+/-- **that obligation is needed too**: with a Force::Gravity setter that writes the parameters without invalidating
+the force cache, a change after a realization (stage stays ≥ Position, the lazy entry stays valid) is ignored. -/
+theorem history_dependent_without_GravitySettersOK :
+    let fs : List Force := [{ posOnly := false, gravity := true, paramStages := [7], setterInval := [false] }]
+    let v0 : Vars := { params := [[5]], enabled := [true], zeroMag := [false] }
+    let ops : List Op := [.realize 8, .gravSet 0 0 50 false 0, .realize 8]
+    result fs (run fs (fresh fs v0) ops) ≠ result fs (fresh fs (run fs (fresh fs v0) ops).vars) := by
+  decide
 
 /-- **the hypothesis is needed** (the mechanism of finding F4): with a position-only element whose parameter
 invalidates only Dynamics, changing the parameter after a realization gives totals that differ from a fresh
@@ -554,7 +643,343 @@ theorem history_dependent_without_TableOK :
 damper with a Dynamics-stage parameter, gravity) is well formed -/
 example : WF [{ posOnly := true, paramStages := [3] }, { posOnly := false, paramStages := [7] },
               { posOnly := false, gravity := true, paramStages := [7] }] := by
-  refine ⟨?_, ?_, ?_⟩ <;> intro f hf <;> simp only [List.mem_cons, List.not_mem_nil, or_false] at hf <;>
+  refine ⟨?_, ?_, ?_, ?_⟩ <;> intro f hf <;> simp only [List.mem_cons, List.not_mem_nil, or_false] at hf <;>
     rcases hf with rfl | rfl | rfl <;> simp
+
+/-! ## the matter subsystem's lazy entries -/
+
+/-- **obligation on the current source**: the entries `SimbodyMatterSubsystemRep` allocates with prerequisites are
+the five the model transcribes, with exactly these stages and prerequisites -/
+theorem matter_table_ok : Gen.matterEntries = ME.all.map ME.expected := by decide
+
+theorem ME.mem_all (e : ME) : e ∈ ME.all := by cases e <;> decide
+
+/-- the entries listing `e` as a prerequisite -/
+def ME.directDependents (e : ME) : List ME := ME.all.filter (fun d => d.pre.contains e)
+def ME.closure : Nat → List ME → List ME
+  | 0, l => l
+  | n + 1, l => ME.closure n (l ++ (l.flatMap ME.directDependents).filter (fun d => !l.contains d))
+
+/-- the invalidation sets used by the model are the transitive closures of the declared prerequisites -/
+theorem dependents_is_closure :
+    ∀ e ∈ ME.all, ∀ d ∈ ME.all, (e.dependents.contains d = (ME.closure 5 [e]).contains d) := by decide
+theorem qDependents_is_closure :
+    ∀ d ∈ ME.all, ME.qDependents.contains d = ME.all.any (fun e => e.q && e.dependents.contains d) := by decide
+theorem uDependents_is_closure :
+    ∀ d ∈ ME.all, ME.uDependents.contains d = ME.all.any (fun e => e.u && e.dependents.contains d) := by decide
+theorem readsU_is_closure : ∀ d ∈ ME.all, d.readsU = ME.uDependents.contains d := by decide
+/-- every entry depends (through position kinematics) on the q version -/
+theorem every_entry_depends_on_q : ∀ d ∈ ME.all, ME.qDependents.contains d = true := by decide
+
+/-- whatever reads valid was computed from the current values -/
+structure MInv (st : St) : Prop where
+  low : st.stage < 3 → ∀ e, st.m.flag e = false
+  cur : st.m.Cur st.vars
+  byStage : ∀ e, e.comp ≤ st.stage → st.m.snap e = minputs st.vars e
+
+theorem MInv.of_eq {a b : St} (h : MInv a) (hs : b.stage = a.stage) (hv : b.vars = a.vars) (hm : b.m = a.m) : MInv b :=
+  ⟨by rw [hs, hm]; exact h.low, by rw [hv, hm]; exact h.cur, by rw [hs, hv, hm]; exact h.byStage⟩
+
+theorem comp_ge_5 (e : ME) : 5 ≤ e.comp := by cases e <;> decide
+
+/-- a variable change invalidating stage `g`, followed by the invalidation of the entries `es` -/
+theorem MInv.change {st : St} (h : MInv st) (g : Nat) (v' : Vars) (es : List ME)
+    (hin : ∀ e, e ∉ es → 3 < g → minputs v' e = minputs st.vars e)
+    (hby : ∀ e, e.comp < g → minputs v' e = minputs st.vars e) :
+    MInv { (st.inval g) with vars := v', m := (st.inval g).m.clear es } := by
+  have hflag : ∀ e, ((st.inval g).m.clear es).flag e = true → st.m.flag e = true ∧ e ∉ es ∧ ¬(g ≤ 3 ∧ 3 ≤ st.stage) := by
+    intro e hf
+    rw [MC.flag_clear] at hf
+    simp only [Bool.and_eq_true, Bool.not_eq_true', List.contains_eq_mem, decide_eq_false_iff_not] at hf
+    obtain ⟨h1, h2⟩ := hf
+    unfold St.inval at h1
+    simp only at h1
+    by_cases hc : g ≤ 3 ∧ 3 ≤ st.stage
+    · rw [if_pos hc, MC.flag_clear] at h1
+      simp only [Bool.and_eq_true, Bool.not_eq_true', List.contains_eq_mem, decide_eq_false_iff_not] at h1
+      exact absurd (ME.mem_all e) h1.2
+    · rw [if_neg hc] at h1; exact ⟨h1, h2, hc⟩
+  have hsnap : ∀ e, ((st.inval g).m.clear es).snap e = st.m.snap e := by
+    intro e
+    rw [MC.snap_clear]
+    unfold St.inval; simp only
+    split
+    · exact MC.snap_clear _ _ _
+    · rfl
+  refine ⟨?_, ?_, ?_⟩
+  · intro hlt e
+    have hlt' : min st.stage (g - 1) < 3 := hlt
+    cases hf : ((st.inval g).m.clear es).flag e with
+    | false => rfl
+    | true =>
+      obtain ⟨h1, _, h3⟩ := hflag e hf
+      by_cases hs : st.stage < 3
+      · rw [h.low hs e] at h1; cases h1
+      · exact absurd ⟨by omega, by omega⟩ h3
+  · intro e hf
+    obtain ⟨h1, h2, h3⟩ := hflag e hf
+    show ((st.inval g).m.clear es).snap e = minputs v' e
+    rw [hsnap, h.cur e h1]
+    by_cases hs : st.stage < 3
+    · rw [h.low hs e] at h1; cases h1
+    · exact (hin e h2 (by omega)).symm
+  · intro e hc
+    have hc' : e.comp ≤ min st.stage (g - 1) := hc
+    show ((st.inval g).m.clear es).snap e = minputs v' e
+    have hcg : e.comp < g := by have := comp_ge_5 e; omega
+    rw [hsnap, h.byStage e (by omega)]
+    exact (hby e hcg).symm
+
+theorem minputs_congr (v w : Vars) (e : ME) (ho : w.opt = v.opt) (hi : w.inst = v.inst) (hq : w.q = v.q)
+    (hu : e.readsU = true → w.u = v.u) : minputs w e = minputs v e := by
+  unfold minputs
+  by_cases hr : e.readsU = true
+  · rw [if_pos hr, if_pos hr, ho, hi, hq, hu hr]
+  · rw [if_neg hr, if_neg hr, ho, hi, hq]
+
+theorem realize_m (fs : List Force) (st : St) (g : Nat) :
+    (st.realize fs g).m = st.m.advance st.stage g st.vars ∧ (st.realize fs g).stage = max st.stage g := by
+  unfold St.realize
+  refine ⟨?_, rfl⟩
+  simp only
+  have e1 : (if st.stage < 5 ∧ 5 ≤ g ∧ anyPosOnly fs = true then { st with cachedValid := false } else st).m = st.m := by
+    split <;> rfl
+  split
+  · rw [dynamics_m]; show MC.advance _ _ _ _ = _; rw [e1]
+  · rw [e1]
+
+theorem MInv.realize (fs : List Force) {st : St} (h : MInv st) (g : Nat) (hg : g ≤ 9)
+    (hv : (st.realize fs g).vars = st.vars) :
+    MInv (st.realize fs g) := by
+  obtain ⟨hm, hs⟩ := realize_m fs st g
+  refine ⟨?_, ?_, ?_⟩
+  · intro hlt e
+    rw [hs] at hlt
+    rw [hm, MC.advance_eq]
+    cases hf : (st.m.ensureAll st.vars (MC.toEnsure st.stage g)).flag e with
+    | false => rfl
+    | true =>
+      rcases MC.flag_ensureAll_of _ _ _ _ hf with h1 | h1
+      · rw [h.low (by omega) e] at h1; cases h1
+      · have := (mem_toEnsure _ _ _).mp h1
+        have := comp_ge_5 e
+        omega
+  · rw [hm, hv, MC.advance_eq]; exact h.cur.ensureAll _
+  · intro e hc
+    rw [hs] at hc
+    rw [hm, hv, MC.advance_eq]
+    by_cases hmem : e ∈ MC.toEnsure st.stage g
+    · exact (h.cur.ensureAll (MC.toEnsure st.stage g)) e (MC.flag_ensureAll_mem _ _ _ _ hmem)
+    · rw [MC.snap_ensureAll_notMem _ _ _ _ hmem]
+      have hn := fun hx => hmem ((mem_toEnsure st.stage g e).mpr hx)
+      by_cases hcs : e.comp ≤ st.stage
+      · exact h.byStage e hcs
+      · -- then comp ≤ g, so e is the composite-body entry, whose computed-by stage is Infinity (never reached)
+        exfalso
+        apply hn
+        refine ⟨?_, by omega, by omega⟩
+        intro hcbi
+        rw [hcbi] at hc hcs
+        simp only [ME.comp] at hc hcs
+        omega
+
+theorem calcAll_vars (fs : List Force) (is : List Nat) (s : St) : (s.calcAll fs is).1.vars = s.vars := by
+  induction is generalizing s with
+  | nil => rfl
+  | cons i is ih =>
+    simp only [St.calcAll]
+    rw [ih]
+    unfold St.calc; simp only; split
+    · exact ensure_vars fs _ i
+    · rfl
+
+theorem dynamics_vars (fs : List Force) (s : St) : (s.dynamics fs).vars = s.vars := by
+  unfold St.dynamics
+  split
+  · exact calcAll_vars fs _ s
+  · split
+    · exact calcAll_vars fs _ s
+    · exact calcAll_vars fs _ s
+
+theorem realize_vars (fs : List Force) (st : St) (g : Nat) : (st.realize fs g).vars = st.vars := by
+  unfold St.realize
+  generalize hst1 : (if st.stage < 5 ∧ 5 ≤ g ∧ anyPosOnly fs = true then { st with cachedValid := false } else st) = st1
+  have e1 : st1.vars = st.vars := by rw [← hst1]; split <;> rfl
+  simp only
+  by_cases hd : st.stage < 7 ∧ 7 ≤ g
+  · rw [if_pos hd]; exact (dynamics_vars fs _).trans e1
+  · rw [if_neg hd]; exact e1
+
+theorem MInv.step (fs : List Force) {st : St} (h : MInv st) (op : Op) : MInv (C16.step fs st op) := by
+  cases op with
+  | setT v =>
+    exact (h.change 4 { st.vars with t := v } [] (fun _ _ _ => rfl) (fun _ _ => rfl)).of_eq rfl rfl rfl
+  | setQ v =>
+    refine h.change 5 { st.vars with q := v } ME.qDependents (fun e he _ => absurd (ME.mem_all e) he) ?_
+    intro e hc; have := comp_ge_5 e; omega
+  | setU v =>
+    refine h.change 6 { st.vars with u := v } ME.uDependents ?_ ?_
+    · intro e he _
+      refine minputs_congr _ _ e rfl rfl rfl ?_
+      intro hr; exfalso; apply he; cases e <;> simp_all [ME.readsU, ME.uDependents]
+    · intro e hc
+      refine minputs_congr _ _ e rfl rfl rfl ?_
+      intro hr; exfalso; cases e <;> simp_all [ME.readsU, ME.comp]
+  | setZ v =>
+    exact (h.change 7 { st.vars with z := v } [] (fun _ _ _ => rfl) (fun _ _ => rfl)).of_eq rfl rfl rfl
+  | setInst v =>
+    exact (h.change 3 { st.vars with inst := v } [] (fun _ _ h3 => absurd h3 (by omega))
+      (fun e hc => by have := comp_ge_5 e; omega)).of_eq rfl rfl rfl
+  | setOpt v =>
+    exact (h.change 2 { st.vars with opt := v } [] (fun _ _ h3 => absurd h3 (by omega))
+      (fun e hc => by have := comp_ge_5 e; omega)).of_eq rfl rfl rfl
+  | setParam i j v =>
+    simp only [C16.step]
+    cases hj : ((fs.getD i default).paramStages)[j]? with
+    | none => exact h
+    | some g =>
+      simp only
+      split
+      · exact h
+      · exact (h.change g { st.vars with params := setParamVal st.vars.params i j v } [] (fun _ _ _ => rfl)
+          (fun _ _ => rfl)).of_eq rfl rfl rfl
+  | setEnabled i b =>
+    simp only [C16.step]
+    split
+    · exact (h.change 3 { st.vars with enabled := setAt st.vars.enabled i b } [] (fun _ _ _ => rfl)
+        (fun _ _ => rfl)).of_eq rfl rfl rfl
+    · exact (h.change 3 st.vars [] (fun _ _ _ => rfl) (fun _ _ => rfl)).of_eq rfl rfl rfl
+  | gravSet i j v zero k =>
+    simp only [C16.step]
+    split
+    · refine (h.change 7 (gravVars st.vars i j v zero) [] (fun _ _ _ => rfl) (fun _ _ => rfl)).of_eq ?_ ?_ ?_
+      · split <;> rfl
+      · split <;> rfl
+      · split <;> rfl
+    · exact h
+  | realize g => exact h.realize fs (min g 9) (Nat.min_le_right _ _) (realize_vars fs st _)
+  | gravQuery i =>
+    simp only [C16.step]
+    split
+    · exact h.of_eq (ensure_stage fs st i) (ensure_vars fs st i) (ensure_m fs st i)
+    · exact h
+  | peQuery =>
+    simp only [C16.step]
+    split
+    · obtain ⟨a, b, c⟩ := foldl_ensure_frame fs (enabledIdx fs st.vars (fun f => f.gravity)) st
+      exact h.of_eq c b a
+    · exact h
+  | mRealize e =>
+    simp only [C16.step]
+    split
+    · rename_i hc
+      split
+      · exact h
+      · refine ⟨fun hlt => absurd hc.1 (by simp only at hlt; omega), h.cur.mark e, ?_⟩
+        intro e' hc'
+        show (st.m.mark e (minputs st.vars e)).snap e' = minputs st.vars e'
+        rw [MC.snap_mark]
+        by_cases he : e' = e
+        · rw [if_pos he, he]
+        · rw [if_neg he]; exact h.byStage e' hc'
+    · exact h
+  | mInvalidate e =>
+    simp only [C16.step]
+    split
+    · exact (h.change e.comp st.vars e.dependents (fun _ _ _ => rfl) (fun _ _ => rfl)).of_eq rfl rfl rfl
+    · refine ⟨?_, ?_, ?_⟩
+      · intro hlt e'
+        show (st.m.clear e.dependents).flag e' = false
+        rw [MC.flag_clear, h.low hlt e']; rfl
+      · intro e' hf
+        have hf' : (st.m.clear e.dependents).flag e' = true := hf
+        rw [MC.flag_clear] at hf'
+        simp only [Bool.and_eq_true] at hf'
+        show (st.m.clear e.dependents).snap e' = minputs st.vars e'
+        rw [MC.snap_clear]; exact h.cur e' hf'.1
+      · intro e' hc
+        show (st.m.clear e.dependents).snap e' = minputs st.vars e'
+        rw [MC.snap_clear]; exact h.byStage e' hc
+
+theorem MInv.fresh (fs : List Force) (v : Vars) : MInv (fresh fs v) := by
+  refine ⟨fun _ e => by cases e <;> rfl, ?_, ?_⟩
+  · intro e hf; cases e <;> simp [C16.fresh, MC.flag] at hf
+  intro e hc
+  have := comp_ge_5 e
+  have : e.comp ≤ 2 := hc
+  omega
+
+theorem MInv.run (fs : List Force) (ops : List Op) {st : St} (h : MInv st) : MInv (C16.run fs st ops) := by
+  induction ops generalizing st with
+  | nil => exact h
+  | cons op ops ih => simp only [C16.run, List.foldl_cons]; exact ih (h.step fs op)
+
+/-- **lazy_entries_depend_on_position_version.**  After *any* history, a matter-subsystem lazy entry (position /
+velocity kinematics, composite-body, articulated-body inertias, articulated-body velocity) that reads valid
+(`isCacheValueRealized`: stage ≥ computed-by, or stage ≥ Instance and marked valid since the Instance stage version,
+the q / u versions and its prerequisite entries last changed) holds what a computation from the current values gives
+— the same as in a fresh State.  No hypothesis on the force table: this is a property of the entries' declared
+prerequisites (`matter_table_ok`, `dependents_is_closure`, `every_entry_depends_on_q`). -/
+theorem lazy_entries_depend_on_position_version (fs : List Force) (v0 : Vars) (ops : List Op) (e : ME) :
+    (run fs (fresh fs v0) ops).mvalid e = true →
+    (run fs (fresh fs v0) ops).m.snap e = minputs (run fs (fresh fs v0) ops).vars e := by
+  intro hv
+  have h := (MInv.fresh fs v0).run fs ops
+  unfold St.mvalid at hv
+  simp only [Bool.or_eq_true, Bool.and_eq_true, decide_eq_true_eq] at hv
+  rcases hv with hv | hv
+  · exact h.byStage e hv
+  · exact h.cur e hv.2
+
+/-- a change of any q invalidates all five entries, whatever the stage was -/
+theorem q_change_invalidates_matter_entries (fs : List Force) (st : St) (v : Nat) (e : ME) :
+    (step fs st (.setQ v)).mvalid e = false := by
+  unfold St.mvalid
+  have hs : (step fs st (.setQ v)).stage = min st.stage 4 := rfl
+  have hf : (step fs st (.setQ v)).m.flag e = false := by
+    show ((st.inval 5).m.clear ME.qDependents).flag e = false
+    rw [MC.flag_clear]
+    have : ME.qDependents.contains e = true := every_entry_depends_on_q e (ME.mem_all e)
+    rw [this]; simp
+  rw [hs, hf]
+  have := comp_ge_5 e
+  simp only [Bool.and_false, Bool.or_false, decide_eq_false_iff_not]
+  omega
+
+/-- a change of u invalidates the two velocity entries and leaves the marks of the three position entries alone -/
+theorem u_change_invalidates_velocity_entries (fs : List Force) (st : St) (v : Nat) (e : ME) :
+    (step fs st (.setU v)).m.flag e = (st.m.flag e && !e.readsU) := by
+  show ((st.inval 6).m.clear ME.uDependents).flag e = _
+  rw [MC.flag_clear]
+  have h1 : (st.inval 6).m = st.m := by
+    unfold St.inval; simp only
+    have : ¬ (6 ≤ 3 ∧ 3 ≤ st.stage) := by omega
+    rw [if_neg this]
+  rw [h1, readsU_is_closure e (ME.mem_all e)]
+
+/-- an explicit request (`realizePositionKinematics`, `realizeCompositeBodyInertias`, …) that is legal makes the entry
+valid, and what it then holds is computed from the current values -/
+theorem matter_request_delivers_current_values (fs : List Force) (v0 : Vars) (ops : List Op) (e : ME) :
+    let st := run fs (fresh fs v0) ops
+    legal fs st (.mRealize e) = true →
+    (step fs st (.mRealize e)).mvalid e = true ∧
+    (step fs st (.mRealize e)).m.snap e = minputs (step fs st (.mRealize e)).vars e := by
+  intro st hl
+  have hI : MInv (step fs st (.mRealize e)) := ((MInv.fresh fs v0).run fs ops).step fs _
+  have hv : (step fs st (.mRealize e)).mvalid e = true := by
+    simp only [legal, Bool.and_eq_true, decide_eq_true_eq] at hl
+    simp only [C16.step]
+    rw [if_pos ⟨hl.1, hl.2⟩]
+    split
+    · assumption
+    · unfold St.mvalid
+      simp only [Bool.or_eq_true, Bool.and_eq_true, decide_eq_true_eq]
+      exact Or.inr ⟨hl.1, by rw [MC.flag_mark, if_pos rfl]⟩
+  refine ⟨hv, ?_⟩
+  unfold St.mvalid at hv
+  simp only [Bool.or_eq_true, Bool.and_eq_true, decide_eq_true_eq] at hv
+  rcases hv with hv | hv
+  · exact hI.byStage e hv
+  · exact hI.cur e hv.2
 
 end C16
